@@ -16,7 +16,7 @@ import (
 
 func init() {
 	register(&PropSpec{ID: "C10", Level: "other", Run: runC10,
-		Explanation: "Decides for all values of the caller's Length and every fetch result: (R-C10.1) in the loaders fromMultihash, fromJSON (k=0) and fromEntryHash (k=1), on every path on which Length is known non-negative, the list handed on has length ≤ max(*Length, k) — proved from path facts plus summaries of the slice helpers (the fetcher is documented to over-deliver, so a loader without an effective trim cannot meet it); (R-C10.2) the trimmed list is the one that was sorted ascending by the loader's comparator, the sort dominates the trim, and the trim helper can only return a suffix of its argument (or nothing); (R-C10.3) every slice in the integer-taking slice helpers is in range for all (len, index). fromEntry's recombination (Difference + range slice) is listed, not armed (beyond the linear prover). Not covered: which entries the fetcher admits, schedule independence, exactness (== rather than ≤).",
+		Explanation: "Decides for all values of the caller's Length and every fetch result: (R-C10.1) in the loaders fromMultihash, fromJSON (k=0) and fromEntryHash (k=1), on every path on which Length is known non-negative, the list handed on has length ≤ max(*Length, k) — proved from path facts plus summaries of the slice helpers (the fetcher is documented to over-deliver, so a loader without an effective trim cannot meet it); (R-C10.2) the trimmed list is the one that was sorted ascending by the loader's comparator, the sort dominates the trim, and the trim helper can only return a suffix of its argument (or nothing); (R-C10.3) every slice in the integer-taking slice helpers is in range for all (len, index). fromEntry's recombination (Difference + range slice) is listed, not armed (beyond the linear prover). (R-C10.13) on every path class the list handed on is at least as long as min(max(*Length, k), what the fetcher delivered): a path that has looked at the limit and does not know it negative is a limited path, whatever the test is spelled like; (R-C10.12) wherever the fetcher compares a clock time with a bound it tracks before admitting an entry or queueing its links, an equal time passes where a later one does; further rules in the evidence (option forwarding, put-back by membership, loop completeness, sorting owned slices only). Not covered: which entries the fetcher admits beyond the tie condition, schedule independence of the kept set, the put-back arithmetic of fromEntry (values, no stable shape).",
 		Assumptions: []string{"loads of the caller's option struct through one access path denote one value (the loaders never store through it — checked)", "machine-integer overflow ignored"},
 	})
 }
